@@ -243,7 +243,7 @@ def clause_pagination(prog, rep):
             offc = [c for c in f.live_calls() if c.name == "offset" and last_seg(c.self_adt) == "Pagination"]
             rep.floor("pagination", "sqlite/%s reads Pagination::offset" % m, len(offc), 1)
             bad = []
-            for g in [f] + [prog.fns[p] for p in prog.extent(f) if p in prog.fns and prog.fns[p].root == f.path and p != f.path]:
+            for g in prog.family(f):
                 # offset is captured by the with_connection closure: follow upvars
                 for bb, s in g.stmts():
                     if s.get("k") == "cast" and s.get("to") == "i64" and "IntToInt" in s.get("cast", ""):
